@@ -63,6 +63,7 @@ PROFILE = {
     "frame": False,
     "perturb": True,
     "perturb_n": 2,
+    "retype": True,
 }
 
 WIDTHS = [0.1, 0.3, 1.0 / 3, 0.7, 0.5, 1.0, 2.5, 1e-3, 7.3, 0.2, 1e-9]
